@@ -117,6 +117,13 @@ def ops_for(cols, full_index):
     for t in dict.fromkeys(x for x in cols[0][2] if x is not None):
         ops.append({"op": "filter_eq", "col": cols[0][0], "value": t})
         ops.append({"op": "filter_out_eq", "col": cols[0][0], "value": t})
+    # a value of ANOTHER type than the column's: rows match where the values are equal (1 == 1.0, nothing equals 1.5 in
+    # an integer column, a day equals its midnight instant and no later instant of that day)
+    foreign = {"i8": [("f8", "1.5"), ("f8", "1.0")], "i4": [("f8", "1.5"), ("f8", "1.0")], "u1": [("f8", "5.5"), ("f8", "5.0")],
+               "D": [("us", "2020-02-29T18:30:00"), ("us", "2020-02-29T00:00:00")], "f8": [("i8", 1)], "b1": [("i8", 1), ("i8", 2)]}.get(kind, [])
+    for vkind, t in foreign:
+        ops.append({"op": "filter_eq", "col": cols[0][0], "value": t, "vkind": vkind})
+        ops.append({"op": "filter_out_eq", "col": cols[0][0], "value": t, "vkind": vkind})
     # several column=value conditions at once (all must hold), against the id and a payload column
     for t in dict.fromkeys(x for x in cols[0][2] if x is not None):
         for i in range(min(n, 2)):
@@ -316,7 +323,7 @@ def check_case(case, rec):
         op = dict(op)
         if op["op"] in ("filter_eq", "filter_out_eq", "filter_eq2", "filter_out_eq2"):
             op["_kind"] = kinds[op["col"]]
-            op["_value"] = decode_value(kinds[op["col"]], op["value"])
+            op["_value"] = decode_value(op.get("vkind") or kinds[op["col"]], op["value"])
         public = {k: v for k, v in op.items() if not k.startswith("_")}
         rec.case((before, repr(public)), nontrivial)
         rec.trans()
